@@ -117,3 +117,12 @@ Definition err_name (e : err) : ustr :=
   match e with EKey => u "KeyError" | EValue => u "ValueError" | EOther => u "Other" | EFuel => u "Fuel" | EUnmodelled => u "Unmodelled" end.
 Definition sx_result (r : result (list ustr)) : sexp :=
   match r with Ok l => L [A (u "ok"); sx_strs l] | Err e => L [A (u "error"); A (err_name e)] end.
+
+(* cases whose outcome depends on behaviour the model does not follow (Unicode lower-casing, float lexical forms outside
+   the modelled grammar): decided from the datatypes named in the document and the cells of the sources *)
+Definition doc_datatypes (d : document) : list ustr :=
+  flat_map (fun t => flat_map (fun p => flat_map (fun o => match o_dt o with Some m => [m_value m] | None => [] end) (p_objs p)) (t_poms t)) d.
+Definition cell_texts (srcs : list source) : list ustr :=
+  flat_map (fun s => flat_map (fun r => flat_map (fun v => match value_text v with Some x => [x] | None => [] end) r) (t_rows (src_table s))) srcs.
+Definition case_unmodelled (srcs : list source) (d : document) : bool :=
+  existsb (fun dt => existsb (fun v => match canon dt v with CUnmodelled => true | _ => false end) (cell_texts srcs)) (doc_datatypes d).
